@@ -2,9 +2,28 @@
    Property theorems only: each proof is one application of a lemma proved in Proofs/, followed by Print Assumptions. *)
 From Coq Require Import ZArith List Bool.
 From CS Require MemoCoh SchedProofs.
-From CS Require Import Actions NAdvance Multistage Exec Sched RunFacts Projections BasicInv MultistageRun TLBridge.
+From CS Require Import Actions NAdvance Multistage Exec Sched RunFacts Projections BasicInv MultistageRun TLBridge MixBridge.
 Import ListNotations.
 Open Scope Z_scope.
+
+(* the memoised planner as the extracted iterator uses it (cache warmed by an arbitrary earlier call) returns the canonical plan for every sub-problem *)
+Module M_C15_memo_warm_planC.
+Import MemoCoh.
+Theorem C15_memo_warm_planC :
+  forall n0 s0 m k : Z,
+         1 <= m <= n0 -> Z.min 1 (m - 1) <= k -> Mixed.memo_warm n0 s0 m k = Actions.Ok (MixDP.planC m k).
+Proof. exact (@MemoCoh.memo_warm_planC). Qed.
+Print Assumptions C15_memo_warm_planC.
+End M_C15_memo_warm_planC.
+
+(* with enough fuel a call succeeds from any coherent cache *)
+Module M_C15_memoS_total.
+Import MemoCoh.
+Theorem C15_memoS_total :
+  forall fuel : nat, CallTot (Z.of_nat fuel) (Mixed.memoS fuel).
+Proof. exact (@MemoCoh.memoS_total). Qed.
+Print Assumptions C15_memoS_total.
+End M_C15_memoS_total.
 
 (* every cache reachable by any sequence of calls holds only correct entries *)
 Module M_C15_cache_coherent.
@@ -19,8 +38,8 @@ End M_C15_cache_coherent.
 Module M_C15_history_independent.
 Import MemoCoh.
 Theorem C15_history_independent :
-  forall (fuel : nat) (qs : list (Z * Z)) (n s : Z) (v : MixDP.plan_t),
-         snd (memoS fuel (run_calls fuel [] qs) n s) = MixDP.Ok v -> v = MixDP.planC n s.
+  forall (fuel : nat) (qs : list (Z * Z)) (n s : Z) (v : Mixed.plan_t),
+         snd (Mixed.memoS fuel (run_calls fuel [] qs) n s) = Actions.Ok v -> v = MixDP.planC n s.
 Proof. exact (@MemoCoh.C15_history_independent). Qed.
 Print Assumptions C15_history_independent.
 End M_C15_history_independent.
